@@ -92,10 +92,10 @@ def _spec(draw, tier):
     for i in range(nmaps):
         if i == 0:
             aw = draw(st.integers(3, 10))
-            dw = draw(st.sampled_from([8, 16, 32, 32, 64]))
+            dw = draw(st.sampled_from([8, 16, 32, 32, 64, 24, 48]))
         else:
             aw = draw(st.integers(1, max(1, min(6, maps[0]["aw"] - 1))))
-            dw = draw(st.sampled_from([maps[0]["dw"], maps[0]["dw"], 8, 16, 32, 64]))
+            dw = draw(st.sampled_from([maps[0]["dw"], maps[0]["dw"], 8, 16, 32, 64, 12, 24]))
         al = draw(st.sampled_from([0, 0, 1, 2, 3]))
         maps.append({"aw": aw, "dw": dw, "al": al})
     regs = draw(st.sampled_from([False, False, False, True]))
